@@ -9,7 +9,7 @@ pub fn def() -> PropDef {
     PropDef {
         id: "C11",
         level: "exploration",
-        profiles: &["checked"],
+        profiles: &["checked", "fast"],
         abort_is_violation: false,
         rule: "proptest-generated operation histories over write / write_all / write_all_defer_err (lengths 0..64, \
                up to 3000, next to the buffer end +-3, capacity-1/capacity/capacity+1/3*capacity), \
